@@ -117,6 +117,29 @@ def gen(rng, tier):
         cases.append({"k": "table", "gz": rng.random() < 0.35,
                       "stored": [R(i, "s%d" % i) for i in range(n0)] if rng.random() < 0.9 else None,
                       "ops": [_rand_op(rng) for _ in range(rng.randrange(1, 13))]})
+    # structured histories: edits that reach back from uncommitted rows into stored ones,
+    # with every kind of slice (negative steps and bounds), then commit / reload / reopen
+    nstruct = 400 if tier == "quick" else 4000
+    for _ in range(nstruct):
+        n0 = rng.randrange(1, 4)
+        ops = []
+        if rng.random() < 0.8:
+            ops.append({"o": "extend", "rows": [R(50 + i, "n%d" % i) for i in range(rng.randrange(1, 4))]})
+        tot = n0 + (len(ops[0]["rows"]) if ops else 0)
+        step = rng.choice([None, 1, -1, -1, 2, -2])
+        a = rng.choice([None, rng.randrange(-tot - 1, tot + 2)])
+        b = rng.choice([None, rng.randrange(-tot - 1, tot + 2)])
+        nsel = len(range(*slice(a, b, step).indices(tot)))
+        k = nsel if (step not in (None, 1) or rng.random() < 0.5) else rng.randrange(0, 4)
+        ops.append({"o": "setslice", "s": [a, b, step], "rows": [R(70 + i, "r%d" % i) for i in range(k)]})
+        if rng.random() < 0.3:
+            ops.append({"o": "setitem", "i": rng.randrange(-tot, tot), "row": R(90, "z")})
+        ops.append({"o": rng.choice(["commit", "commit", "commit", "reload"])})
+        if rng.random() < 0.5:
+            ops.append({"o": "extend", "rows": [R(95, "t")]})
+            ops.append({"o": rng.choice(["commit", "reopen"])})
+        cases.append({"k": "table", "gz": rng.random() < 0.25,
+                      "stored": [R(i, "s%d" % i) for i in range(n0)], "ops": ops})
     for bs in (0, 1, 2, 3, 5, 1000):
         for gz in (False, True):
             for pre in (False, True):
